@@ -343,7 +343,7 @@ theorem procReal_new (a : LoadArgs) (ts : Time) (p : Payload) (cur : Time) (s : 
       obtain ⟨fl, s', he, g1, g2, g3, g4, g5, g6, g7⟩ :=
         finish_spec a cur (seen .new ts s) evs (by rw [h1]; simp)
       exact ⟨fl, s', he, g1.trans h1, g2.trans h2, g3.trans h3, g4.trans h4, by rw [g5]; exact h5, h6, g6, g7⟩
-    · simp only [hkv, Bool.false_eq_true, ↓reduceIte, Fix.new, hle, Option.toList_some]
+    · simp only [hkv, Bool.false_eq_true, ↓reduceIte, deliverOk, Fix.new, hle, Option.toList_some]
       obtain ⟨fl, s', he, g1, g2, g3, g4, g5, g6, g7⟩ :=
         finish_spec a cur (enqueue ts kv (seen .new ts s)) (evs ++ [(ts, kv)]) (by simp [enqueue])
       exact ⟨fl, s', he, g1, g2.trans h2, g3.trans h3, g4, by rw [g5]; exact h5, h6, g6, g7⟩
@@ -1288,5 +1288,352 @@ theorem trace_exhausted {H : History} {o : Opts} {sched : List LoadArgs} {todo :
       have := ih hrest (by simp) s' hst
       simp only [List.map_cons, List.flatten_cons, outEvents, deliverable_append]
       rw [this]
+
+/-! ### the register map: whatever is delivered is queued, and whatever is queued is absorbed in order
+
+These lemmas hold for every variant of the code (`o.fix` arbitrary) and every history. -/
+
+/-- the register map once everything queued in `future` has been absorbed -/
+def pending (s : LState) : List (Nat × Time × Int) := s.future.foldl absorb s.values
+
+/-- COMPLETE is only entered with an empty queue -/
+def Good (s : LState) : Prop := s.st = .complete → s.future = []
+
+/-- from `(s, evs)` to `(s', evs')`: the new events are exactly what was added to the queue or map -/
+structure Step (s : LState) (evs : List Event) (s' : LState) (evs' : List Event) : Prop where
+  evs : ∃ new, evs' = evs ++ new ∧ pending s' = new.foldl absorb (pending s)
+  good : Good s → Good s'
+
+theorem Step.refl (s : LState) (evs : List Event) : Step s evs s evs :=
+  ⟨⟨[], by simp, rfl⟩, id⟩
+
+theorem Step.trans {s1 s2 s3 : LState} {e1 e2 e3 : List Event} (h1 : Step s1 e1 s2 e2)
+    (h2 : Step s2 e2 s3 e3) : Step s1 e1 s3 e3 := by
+  obtain ⟨n1, rfl, p1⟩ := h1.evs
+  obtain ⟨n2, rfl, p2⟩ := h2.evs
+  exact ⟨⟨n1 ++ n2, by simp, by rw [p2, p1, List.foldl_append]⟩, fun g => h2.good (h1.good g)⟩
+
+/-- a change of the bookkeeping fields only (never to COMPLETE) -/
+theorem Step.fields {s s' : LState} (evs : List Event) (hf : s'.future = s.future)
+    (hv : s'.values = s.values) (hst : s'.st = s.st ∨ s'.st ≠ .complete) : Step s evs s' evs := by
+  refine ⟨⟨[], by simp, by simp [pending, hf, hv]⟩, ?_⟩
+  intro g hc
+  rw [hf]
+  rcases hst with h | h
+  · exact g (h ▸ hc)
+  · exact (h hc).elim
+
+theorem drain_pending (up : Option Time) (cur : Time) (fut : List Event) :
+    ∀ (v : List (Nat × Time × Int)) (u : Option Time),
+    (drain up cur fut v u).2.1.foldl absorb (drain up cur fut v u).2.2.1 = fut.foldl absorb v := by
+  induction fut with
+  | nil => intro v u; rfl
+  | cons e fs ih =>
+    intro v u
+    simp only [drain]
+    split
+    · split
+      · rfl
+      · rw [ih]; rfl
+    · rfl
+
+theorem drain_nil_of_nil (up : Option Time) (cur : Time) (v : List (Nat × Time × Int)) (u : Option Time) :
+    (drain up cur [] v u).2.1 = [] := rfl
+
+theorem finish_step (a : LoadArgs) (cur : Time) (s : LState) (evs : List Event) :
+    Step s evs (finish a cur s evs).2.1 (finish a cur s evs).2.2 := by
+  have hp := drain_pending a.upcoming cur s.future s.values s.until_
+  unfold finish
+  cases hd : drain a.upcoming cur s.future s.values s.until_ with
+  | mk b r =>
+    obtain ⟨fut, v, u⟩ := r
+    rw [hd] at hp
+    simp only at hp
+    have hgood : ∀ st', (st' = s.st ∨ (st' = .complete ∧ fut = [])) →
+        Good s → Good { s with st := st', future := fut, values := v, until_ := u } := by
+      intro st' hst' g hc
+      simp only at hc ⊢
+      rcases hst' with h | ⟨_, h⟩
+      · have := g (h ▸ hc)
+        have h2 := drain_nil_of_nil a.upcoming cur s.values s.until_
+        rw [this] at hd
+        rw [hd] at h2
+        exact h2
+      · exact h
+    cases b with
+    | true => exact ⟨⟨[], by simp, by simpa [pending] using hp⟩, hgood s.st (Or.inl rfl)⟩
+    | false =>
+      simp only
+      split
+      · split
+        · rename_i he
+          refine ⟨⟨[], by simp, by simpa [pending] using hp⟩, ?_⟩
+          have : fut = [] := by simpa using he
+          exact hgood .complete (Or.inr ⟨rfl, this⟩)
+        · exact ⟨⟨[], by simp, by simpa [pending] using hp⟩, hgood s.st (Or.inl rfl)⟩
+      · split
+        · exact ⟨⟨[], by simp, by simpa [pending] using hp⟩, hgood s.st (Or.inl rfl)⟩
+        · exact ⟨⟨[], by simp, by simpa [pending] using hp⟩, hgood s.st (Or.inl rfl)⟩
+
+theorem stAfter_complete {st : St} (h : stAfter st = .complete) : st = .complete := by
+  unfold stAfter at h
+  split at h
+  · simp at h
+  · exact h
+
+theorem seen_step (fx : Fix) (ts : Time) (s : LState) (evs : List Event) : Step s evs (seen fx ts s) evs := by
+  refine ⟨⟨[], by simp, rfl⟩, ?_⟩
+  intro g hc
+  exact g (stAfter_complete hc)
+
+theorem procReal_step (fx : Fix) (a : LoadArgs) (ts : Time) (p : Payload) (cur : Time) (s : LState)
+    (evs : List Event) :
+    Step s evs (procReal fx a ts p cur s evs).2.1 (procReal fx a ts p cur s evs).2.2 := by
+  unfold procReal
+  split
+  · exact Step.refl s evs
+  · cases p with
+    | skip => exact seen_step fx ts s evs
+    | bad => exact seen_step fx ts s evs
+    | regs kv =>
+      simp only
+      split
+      · exact (seen_step fx ts s evs).trans (finish_step a cur _ evs)
+      · split
+        · refine (seen_step fx ts s evs).trans (Step.trans ?_ (finish_step a cur _ _))
+          refine ⟨⟨[(ts, kv)], rfl, ?_⟩, ?_⟩
+          · simp [pending, enqueue, List.foldl_append]
+          · intro _ hc; simp [enqueue] at hc
+        · refine (seen_step fx ts s evs).trans (Step.trans ?_ (finish_step a cur _ _))
+          exact Step.fields evs rfl rfl (Or.inr (by simp))
+
+theorem atRecord_step (o : Opts) (a : LoadArgs) (ts : Time) (p : Payload) (rest : List Line)
+    (cur adv : Time) (s : LState) (evs : List Event) :
+    Step s evs (atRecord o a ts p rest cur adv s evs).1.s (atRecord o a ts p rest cur adv s evs).1.evs := by
+  unfold atRecord
+  by_cases h1 : adv < ts
+  · by_cases h2 : a.clock + o.la < ts
+    · simp only [h1, h2, ↓reduceIte]
+      exact Step.fields evs rfl rfl (Or.inr (by simp))
+    · simp only [h1, h2, ↓reduceIte]
+      exact (procReal_step o.fix a ts p _ s evs).trans (Step.fields _ rfl rfl (Or.inl rfl))
+  · simp only [h1, ↓reduceIte]
+    exact (procReal_step o.fix a ts p _ s evs).trans (Step.fields _ rfl rfl (Or.inl rfl))
+
+theorem runLines_step (o : Opts) (a : LoadArgs) (ls : List Line) :
+    ∀ (cur adv : Time) (s : LState) (lc : Time) (evs : List Event),
+    Step s evs (runLines o a ls cur adv s lc evs).s (runLines o a ls cur adv s lc evs).evs := by
+  induction ls with
+  | nil => intro cur adv s lc evs; exact Step.fields evs rfl rfl (Or.inl rfl)
+  | cons l ls ih =>
+    intro cur adv s lc evs
+    cases l with
+    | comment => exact ih cur adv s lc evs
+    | corrupt =>
+      simp only [runLines]
+      split
+      · split
+        · exact Step.refl s evs
+        · exact ih cur adv s cur evs
+      · exact Step.refl s evs
+    | recd ts p =>
+      simp only [runLines]
+      have h1 := atRecord_step o a ts p ls cur adv s evs
+      cases hat : atRecord o a ts p ls cur adv s evs with
+      | mk out ca =>
+        obtain ⟨cur', adv'⟩ := ca
+        rw [hat] at h1
+        simp only at h1 ⊢
+        split
+        · exact h1.trans (ih _ _ _ _ _)
+        · exact h1
+
+theorem runGen_step (o : Opts) (a : LoadArgs) (s : LState) (lc : Time) (evs : List Event) :
+    Step s evs (runGen o a s lc evs).s (runGen o a s lc evs).evs := by
+  unfold runGen
+  split
+  · exact Step.refl s evs
+  · exact procReal_step o.fix a a.clock (.regs []) a.clock s evs
+  · rename_i ts p rest cur adv _
+    have h1 := atRecord_step o a ts p rest cur adv s evs
+    cases hat : atRecord o a ts p rest cur adv s evs with
+    | mk out ca =>
+      obtain ⟨cur', adv'⟩ := ca
+      rw [hat] at h1
+      simp only at h1 ⊢
+      split
+      · exact h1.trans (runLines_step o a rest _ _ _ _ _)
+      · exact h1
+  · exact runLines_step o a _ _ _ s lc evs
+
+/-- a finished `load` call, as a step -/
+def DoneStep (s : LState) (evs : List Event) : LoadOut → Prop
+  | .hang => True
+  | .done _ s' evs' => Step s evs s' evs'
+
+theorem afterFor_step (r : ForOut) : Step r.s r.evs (afterFor r) r.evs := by
+  unfold afterFor
+  split
+  · exact Step.fields _ rfl rfl (Or.inr (by simp))
+  · split
+    · exact Step.fields _ rfl rfl (Or.inr (by simp))
+    · exact Step.refl _ _
+
+theorem continueWith_step (again : LState → Time → List Event → LoadOut) (s : LState) (evs : List Event)
+    (r : ForOut) (hr : Step s evs r.s r.evs)
+    (hagain : ∀ s2 lc e2, Step s evs s2 e2 → DoneStep s evs (again s2 lc e2)) :
+    DoneStep s evs (continueWith again r) := by
+  unfold continueWith
+  split
+  · exact hr
+  · simp only
+    split
+    · exact hagain _ _ _ (hr.trans (afterFor_step r))
+    · exact hr.trans (afterFor_step r)
+
+theorem loadLoop_step (H : History) (o : Opts) (a : LoadArgs) (s0 : LState) (e0 : List Event) (fuel : Nat) :
+    ∀ (s : LState) (lc : Time) (evs : List Event), Step s0 e0 s evs →
+    DoneStep s0 e0 (loadLoop H o a fuel s lc evs) := by
+  induction fuel with
+  | zero => intro s lc evs _; trivial
+  | succ n ih =>
+    intro s lc evs hs
+    simp only [loadLoop]
+    split
+    · exact hs.trans (Step.fields evs rfl rfl (Or.inr (by simp [exhaustedState])))
+    · rename_i op _
+      have h1 : Step s0 e0 (openedState o a op s) evs := hs.trans (Step.fields evs rfl rfl (Or.inl rfl))
+      exact continueWith_step _ s0 e0 _ (h1.trans (runGen_step o a _ lc evs)) (fun s2 lc2 e2 h => ih s2 lc2 e2 h)
+
+theorem load_step (H : History) (o : Opts) (a : LoadArgs) (s : LState) : DoneStep s [] (load H o a s) := by
+  unfold load
+  split
+  · exact Step.refl s []
+  · split
+    · exact loadLoop_step H o a s [] _ s a.clock [] (Step.refl s [])
+    · exact continueWith_step _ s [] _ (runGen_step o a s a.clock [])
+        (fun s2 lc2 e2 h => loadLoop_step H o a s [] _ s2 lc2 e2 h)
+
+/-- **Over a whole schedule**: the register map with the queue absorbed is the map obtained by
+absorbing every delivered event in order of delivery; COMPLETE is only reached with an empty queue. -/
+theorem runLoads_pending (H : History) (o : Opts) (sched : List LoadArgs) :
+    ∀ s, Good s →
+    pending (lastState (runLoads H o sched s) s) =
+      ((runLoads H o sched s).map outEvents).flatten.foldl absorb (pending s) ∧
+    Good (lastState (runLoads H o sched s) s) := by
+  induction sched with
+  | nil => intro s g; exact ⟨rfl, g⟩
+  | cons a as ih =>
+    intro s g
+    have h1 := load_step H o a s
+    simp only [runLoads]
+    cases hl : load H o a s with
+    | hang => exact ⟨rfl, g⟩
+    | done t s' evs =>
+      rw [hl] at h1
+      simp only [DoneStep] at h1
+      obtain ⟨new, hnew, hp⟩ := h1.evs
+      simp only [List.nil_append] at hnew
+      subst hnew
+      obtain ⟨i1, i2⟩ := ih s' (h1.good g)
+      simp only [lastState, List.map_cons, List.flatten_cons, outEvents, List.foldl_append]
+      exact ⟨by rw [i1, hp], i2⟩
+
+/-! ### what the register map holds -/
+
+def lookupReg (r : Nat) : List (Nat × Time × Int) → Option (Time × Int)
+  | [] => none
+  | (r', tv) :: rest => if r = r' then some tv else lookupReg r rest
+
+/-- the value a payload gives to register `r` (the last one, should the key be repeated) -/
+def lastKV (r : Nat) : Regs → Option Int
+  | [] => none
+  | (k, v) :: rest => match lastKV r rest with
+    | some x => some x
+    | none => if r = k then some v else none
+
+/-- the last value logged for register `r` in a sequence of events, with the time of that event -/
+def lastLogged (r : Nat) : List Event → Option (Time × Int)
+  | [] => none
+  | (t, kv) :: rest => match lastLogged r rest with
+    | some x => some x
+    | none => (lastKV r kv).map fun v => (t, v)
+
+theorem lookupReg_setReg (r r' : Nat) (tv : Time × Int) (l : List (Nat × Time × Int)) :
+    lookupReg r (setReg r' tv l) = if r = r' then some tv else lookupReg r l := by
+  induction l with
+  | nil => simp [setReg, lookupReg]
+  | cons h rest ih =>
+    obtain ⟨k, x⟩ := h
+    simp only [setReg]
+    split
+    · simp [lookupReg]
+    · split
+      · rename_i h2
+        subst h2
+        by_cases hr : r = r' <;> simp [lookupReg, hr]
+      · rename_i h1 h2
+        simp only [lookupReg, ih]
+        by_cases hk : r = k
+        · subst hk
+          have : r ≠ r' := fun h => h2 h.symm
+          simp [this]
+        · simp [hk]
+
+theorem lookupReg_absorb (r : Nat) (t : Time) (kv : Regs) :
+    ∀ v, lookupReg r (absorb v (t, kv)) =
+      match lastKV r kv with
+      | some x => some (t, x)
+      | none => lookupReg r v := by
+  induction kv with
+  | nil => intro v; rfl
+  | cons h rest ih =>
+    intro v
+    obtain ⟨k, x⟩ := h
+    have : absorb v (t, (k, x) :: rest) = absorb (setReg k (t, x) v) (t, rest) := rfl
+    rw [this, ih, lastKV]
+    cases lastKV r rest with
+    | some y => rfl
+    | none =>
+      simp only [lookupReg_setReg]
+      by_cases hk : r = k <;> simp [hk]
+
+/-- absorbing events in order leaves, for each register, the last value logged for it -/
+theorem lookupReg_foldl_absorb (r : Nat) (evs : List Event) :
+    ∀ init, lookupReg r (evs.foldl absorb init) =
+      match lastLogged r evs with
+      | some x => some x
+      | none => lookupReg r init := by
+  induction evs with
+  | nil => intro init; rfl
+  | cons e es ih =>
+    intro init
+    obtain ⟨t, kv⟩ := e
+    rw [List.foldl_cons, ih, lastLogged]
+    cases lastLogged r es with
+    | some y => rfl
+    | none =>
+      simp only [lookupReg_absorb]
+      cases lastKV r kv <;> rfl
+
+/-! ### the clock -/
+
+/-- `advance` inverts `realtime` -/
+theorem advance_realtime (hist : Int) (fd : Nat) (hfd : 0 < fd) (ts : Int) :
+    advance hist fd (realtime hist fd ts) = ts := by
+  unfold advance realtime
+  rw [Int.mul_ediv_cancel _ (by omega : (fd : Int) ≠ 0)]
+  omega
+
+/-- the historical clock does not go back when the wall clock does not -/
+theorem advance_mono (hist : Int) (fd : Nat) (w w' : Int) (h : w ≤ w') :
+    advance hist fd w ≤ advance hist fd w' := by
+  unfold advance
+  have := Int.ediv_le_ediv (a := w) (b := w') (c := (fd : Int))
+  by_cases hfd : fd = 0
+  · simp [hfd]
+  · have hpos : (0 : Int) < fd := by omega
+    have := Int.ediv_le_ediv hpos h
+    omega
 
 end Cpppo.History
